@@ -119,6 +119,22 @@ def run_frames(rep, cases):
                     outcome, out = call(pa.DataFrameSchema({spec["name"]: pcol}), df, lazy=lazy)
                     judge(rep, dict(case, entry="DataFrameSchema+parser"), "DataFrameSchema+parser", df, before, outcome,
                           out, pd.DataFrame)
+            # a stand-alone Column with a parser that also drops its invalid rows (lazy): still a dataframe for a dataframe
+            try:
+                kwd = A.component_kwargs(dict(spec, coerce=False, default=None))
+                kwd.pop("default", None)
+                dcol = pa.Column(name=spec["name"], required=spec["required"], drop_invalid_rows=True,
+                                 parsers=[pa.Parser(lambda s_: s_)], **kwd)
+            except Exception:  # noqa: BLE001
+                dcol = None
+            if dcol is not None:
+                df = A.frame_of(D)
+                before = norm(snap(df))
+                outcome, out = call(dcol, df, lazy=True)
+                case = {"entry": "Column+parser+drop_invalid_rows", "spec": dict(spec, coerce=False, default=None), "frame": D,
+                        "lazy": True}
+                rep.case(case, nontrivial=True)
+                judge(rep, case, "Column+parser+drop_invalid_rows", df, before, outcome, out, pd.DataFrame)
             # a user parser that edits its argument in place and returns it (legal: it is handed pandera's own copy)
             def _edit_in_place(s_):
                 if len(s_):
@@ -262,6 +278,30 @@ def run_polars(rep, rng, n):
                     if outcome == "ok" and not isinstance(out, kind):
                         rep.property_failure(case, f"polars Column.validate returned a {type(out).__name__} for a "
                                                    f"{kind.__name__}")
+        # with validation switched off every entry point hands back its argument (same kind, same object)
+        from pandera.config import config_context
+        first = next((sp for sp in S["columns"] if any(col["name"] == sp["name"] for col in D["cols"])), None)
+        for obj, kind in ((df, pl.DataFrame), (df.lazy(), pl.LazyFrame)):
+            entries = [("polars.DataFrameSchema", schema)]
+            if first is not None:
+                try:
+                    entries.append(("polars.Column", PA.column_of(first)[1]))
+                except Exception:  # noqa: BLE001
+                    pass
+            for entry, sch in entries:
+                case = {"entry": entry + " (validation disabled)", "schema": S, "frame": D, "kind": kind.__name__}
+                with warnings.catch_warnings():
+                    warnings.simplefilter("ignore")
+                    try:
+                        with config_context(validation_enabled=False):
+                            out = sch.validate(obj)
+                    except Exception as e:  # noqa: BLE001
+                        rep.property_failure(case, f"{entry}: validation disabled but validate raised {type(e).__name__}")
+                        continue
+                rep.count(f"{entry}[{kind.__name__}]:disabled")
+                if not isinstance(out, kind):
+                    rep.property_failure(case, f"{entry}.validate with validation disabled returned a {type(out).__name__} "
+                                               f"for a {kind.__name__}")
 
 
 def run(tier, replay=None):
